@@ -1,4 +1,285 @@
 import LasioModel.Basic
-/- Transform model (to be filled in) -/
-namespace Lasio
-end Lasio
+import LasioModel.HeaderLine
+import LasioModel.Reader
+import LasioModel.Data
+/-
+C09 — the PRESENTATION TRANSFORMATIONS of a LAS text, as total functions on the list of physical lines of a document
+(`Doc`, the lines `io.StringIO(text)` yields: terminator kept), and the whole-file reader `readModel` that glues the
+header-level reader (`Lasio.Rd.readLines`) and the data-section reader (`Lasio.Dt.readData`).
+
+The same functions exist in Python (`harness/transforms.py`); the driver op `tf.apply` lets the harness compare them on
+every generated case.  Every argument is SANITISED inside the function (padding arguments are filtered to blanks/TABs, a
+separator that would not separate is replaced by the default one, comment text loses its line feeds), so the functions are
+total and the side conditions of the theorems (LasioProofs/Props/C09.lean) speak about the DOCUMENT only.
+-/
+namespace Lasio.Tf
+
+abbrev Doc := List Str
+
+def nl : Str := ['\n']
+
+/-- blank or TAB: the padding characters of the property text -/
+def isBT (c : Char) : Bool := c == ' ' || c == '\t'
+
+/-- keep the blanks/TABs of a padding argument -/
+def blanksOf (s : Str) : Str := s.filter isBT
+
+/-- text and terminator (`"\r\n"`, `"\n"` or nothing) of a physical line -/
+def splitEol (l : Str) : Str × Str :=
+  match l.reverse with
+  | '\n' :: '\r' :: r => (r.reverse, ['\r', '\n'])
+  | '\n' :: r => (r.reverse, ['\n'])
+  | _ => (l, [])
+
+/-- a line with a terminator -/
+def termLine (l : Str) : Str := if l.getLast? == some '\n' then l else l ++ nl
+
+/-- give the last line its line feed (`addFinalNewline`) -/
+def terminate : Doc → Doc
+  | [] => []
+  | [l] => [termLine l]
+  | l :: ls => l :: terminate ls
+
+/-- apply `f` to line `k` (nothing when there is no such line) -/
+def mapAt (k : Nat) (f : Str → Str) : Doc → Doc
+  | [] => []
+  | l :: ls =>
+    match k with
+    | 0 => f l :: ls
+    | k + 1 => l :: mapAt k f ls
+
+/-! ## inserting lines -/
+
+/-- insert the line `l` (given without terminator) before line `k`; after the last line when `k ≥ length` -/
+def insLine (k : Nat) (l : Str) (d : Doc) : Doc :=
+  terminate (d.take k) ++ (l ++ nl) :: d.drop k
+
+/-- a blank line: blanks/TABs only -/
+def insBlank (k : Nat) (ws : Str) (d : Doc) : Doc := insLine k (blanksOf ws) d
+
+/-- the text of a comment line: optional indentation, `#`, free text without line feed -/
+def commentLine (indent text : Str) : Str := blanksOf indent ++ '#' :: text.filter (· != '\n')
+
+def insComment (k : Nat) (indent text : Str) (d : Doc) : Doc := insLine k (commentLine indent text) d
+
+/-! ## padding around a line, padding between the fields of a data line -/
+
+/-- remove leading and trailing blanks/TABs -/
+def stripBT (s : Str) : Str := ((s.dropWhile isBT).reverse.dropWhile isBT).reverse
+
+/-- replace the leading and the trailing run of blanks/TABs of a line -/
+def padLine1 (lead trail : Str) (l : Str) : Str :=
+  let te := splitEol l
+  blanksOf lead ++ (stripBT te.1 ++ (blanksOf trail ++ te.2))
+
+def padLine (k : Nat) (lead trail : Str) (d : Doc) : Doc := mapAt k (padLine1 lead trail) d
+
+/-- a separator for the declared delimiter made from the argument `s`:
+SPACE: its blanks/TABs, one blank when there is none;
+TAB:   its blanks/TABs when a TAB is among them, else one TAB;
+COMMA: the blanks/TABs before its first comma, one comma, the blanks/TABs after it. -/
+def mkSep : Dt.Dlm → Str → Str
+  | .space, s => let b := blanksOf s; if b.isEmpty then [' '] else b
+  | .tab, s => let b := blanksOf s; if b.contains '\t' then b else ['\t']
+  | .comma, s => blanksOf (s.takeWhile (· != ',')) ++ ',' :: blanksOf (s.dropWhile (· != ','))
+
+/-- the cells of a data line for a delimiter: whitespace-separated words / TAB- or comma-separated stripped cells -/
+def cellsOf : Dt.Dlm → Str → List Str
+  | .space, t => Dt.pySplit t
+  | .tab, t => (Dt.splitOnChar '\t' (strip t)).map strip
+  | .comma, t => (Dt.splitOnChar ',' (strip t)).map strip
+
+/-- cells joined by the separators made from `seps` (the default separator when `seps` is exhausted) -/
+def joinSeps (mk : Str → Str) : List Str → List Str → Str
+  | [], _ => []
+  | [w], _ => w
+  | w :: w' :: ws, ss => w ++ (mk (ss.headD []) ++ joinSeps mk (w' :: ws) ss.tail)
+
+/-- re-lay the cells of a line: `from` says how the line is cut into cells, `to` how they are joined -/
+def relayLine1 (frm to : Dt.Dlm) (seps : List Str) (l : Str) : Str :=
+  let te := splitEol l
+  joinSeps (mkSep to) (cellsOf frm te.1) seps ++ te.2
+
+/-- `repadLine`: replace every run of blanks between the fields of line `k` (cut and joined with the same delimiter) -/
+def repadLine (k : Nat) (dlm : Dt.Dlm) (seps : List Str) (d : Doc) : Doc := mapAt k (relayLine1 dlm dlm seps) d
+
+/-! ## line terminators -/
+
+/-- every `\n` → `\r\n` -/
+def crlf1 (l : Str) : Str := l.flatMap fun c => if c == '\n' then ['\r', '\n'] else [c]
+def crlf (d : Doc) : Doc := d.map crlf1
+
+/-- a final `\r\n` → `\n` -/
+def lf1 (l : Str) : Str :=
+  match l.reverse with
+  | '\n' :: '\r' :: r => r.reverse ++ nl
+  | _ => l
+def lf (d : Doc) : Doc := d.map lf1
+
+/-- omit the terminator of the last line (a last line that was nothing but its terminator disappears) -/
+def dropFinalNewline (d : Doc) : Doc :=
+  match d.reverse with
+  | [] => []
+  | l :: r => let t := (splitEol l).1; if t.isEmpty then r.reverse else r.reverse ++ [t]
+
+def addFinalNewline (d : Doc) : Doc := terminate d
+
+/-! ## re-wrapping -/
+
+/-- blank line or comment line of a data section -/
+def isSkip (l : Str) : Bool := let c := Dt.cleanLine l; c.isEmpty || Dt.isComment c
+
+/-- cut a list into pieces of the given widths (a width 0 counts as 1; what is left when the widths are used up is one
+piece) -/
+def cut {α} : List Nat → List α → List (List α)
+  | _, [] => []
+  | [], l => [l]
+  | w :: ws, a :: l => (a :: l).take (max w 1) :: cut ws ((a :: l).drop (max w 1))
+
+/-- the physical lines of one depth step -/
+def wrapStep (widths : List Nat) (step : List Str) : List Str :=
+  (cut widths step).map fun ws => joinWith [' '] ws ++ nl
+
+/-- the body of a wrapped data section laid out again: the blank/comment lines first, then every depth step (`d` words)
+cut into lines of the given widths -/
+def rewrapBody (d : Nat) (widths : List Nat) (body : List Str) : List Str :=
+  (body.filter isSkip).map termLine ++
+    (Dt.reshape (max d 1) ((body.filter (fun l => !isSkip l)).flatMap Dt.pySplit)).flatMap (wrapStep widths)
+
+/-- re-wrap the data section with window `(first, last)` (title line, inclusive last line) of a file with `d` curves -/
+def rewrap (first last d : Nat) (widths : List Nat) (doc : Doc) : Doc :=
+  doc.take (first + 1) ++ rewrapBody d widths (Dt.bodyLines doc first last) ++ doc.drop (last + 1)
+
+/-! ## the layout of a header line -/
+
+/-- `p0 name p1 . unit p2 value p3 : p4 descr p5` -/
+def layoutFields (f : Fields) (p0 p1 p2 p3 p4 p5 : Str) : Str :=
+  p0 ++ f.name ++ p1 ++ '.' :: (f.unit ++ p2 ++ f.value ++ p3 ++ ':' :: (p4 ++ f.descr ++ p5))
+
+/-- parse a header line as the reader does and lay its fields out again with other paddings (a line the reader cannot
+parse is left alone) -/
+def relayoutLine1 (sec : SecName) (p0 p1 p2 p3 p4 p5 : Str) (l : Str) : Str :=
+  let te := splitEol l
+  match parseHeaderLine sec (strip te.1) with
+  | some f => layoutFields f (blanksOf p0) (blanksOf p1) (blanksOf p2) (blanksOf p3) (blanksOf p4) (blanksOf p5) ++ te.2
+  | none => l
+
+def relayout (k : Nat) (sec : SecName) (p0 p1 p2 p3 p4 p5 : Str) (d : Doc) : Doc :=
+  mapAt k (relayoutLine1 sec p0 p1 p2 p3 p4 p5) d
+
+/-! ## re-delimiting -/
+
+def dlmName : Dt.Dlm → Str
+  | .space => "SPACE".toList
+  | .tab => "TAB".toList
+  | .comma => "COMMA".toList
+
+def dlmItemLine (to : Dt.Dlm) : Str := "DLM. ".toList ++ dlmName to ++ " : delimiter".toList
+
+/-- re-lay every data line (not the blank / comment lines) of a body -/
+def relayBody (frm to : Dt.Dlm) (seps : List Str) (body : List Str) : List Str :=
+  body.map fun l => if isSkip l then l else relayLine1 frm to seps l
+
+/-- Declare another delimiter and re-delimit the data accordingly: the data lines of the window `(first, last)` are cut
+into cells with `frm` and joined with `to`; the DLM item of ~Version is line `vk` (`replace`), or a new item line is
+inserted before line `vk` (`vk ≤ first`: the ~Version section precedes the data section). -/
+def redelim (first last vk : Nat) (replace : Bool) (frm to : Dt.Dlm) (seps : List Str) (doc : Doc) : Doc :=
+  let doc1 := doc.take (first + 1) ++ relayBody frm to seps (Dt.bodyLines doc first last) ++ doc.drop (last + 1)
+  if replace then mapAt vk (fun l => dlmItemLine to ++ (splitEol l).2) doc1
+  else insLine vk (dlmItemLine to) doc1
+
+/-! ## the transformations as data -/
+
+inductive Transform where
+  | insBlank (k : Nat) (ws : Str)
+  | insComment (k : Nat) (indent text : Str)
+  | padLine (k : Nat) (lead trail : Str)
+  | repadLine (k : Nat) (dlm : Dt.Dlm) (seps : List Str)
+  | relayout (k : Nat) (sec : SecName) (p0 p1 p2 p3 p4 p5 : Str)
+  | crlf
+  | lf
+  | dropFinalNewline
+  | addFinalNewline
+  | rewrap (first last d : Nat) (widths : List Nat)
+  | redelim (first last vk : Nat) (replace : Bool) (frm to : Dt.Dlm) (seps : List Str)
+deriving Repr
+
+def Transform.apply : Transform → Doc → Doc
+  | .insBlank k ws, d => Tf.insBlank k ws d
+  | .insComment k i t, d => Tf.insComment k i t d
+  | .padLine k a b, d => Tf.padLine k a b d
+  | .repadLine k dlm seps, d => Tf.repadLine k dlm seps d
+  | .relayout k sec p0 p1 p2 p3 p4 p5, d => Tf.relayout k sec p0 p1 p2 p3 p4 p5 d
+  | .crlf, d => Tf.crlf d
+  | .lf, d => Tf.lf d
+  | .dropFinalNewline, d => Tf.dropFinalNewline d
+  | .addFinalNewline, d => Tf.addFinalNewline d
+  | .rewrap f l n ws, d => Tf.rewrap f l n ws d
+  | .redelim f l vk r a b seps, d => Tf.redelim f l vk r a b seps d
+
+/-- apply the transformations from left to right -/
+def applyAll : List Transform → Doc → Doc
+  | [], d => d
+  | t :: ts, d => applyAll ts (t.apply d)
+
+/-- on texts: split into lines, transform, concatenate -/
+def applyText (ts : List Transform) (text : Str) : Str := (applyAll ts (Rd.splitLines text)).flatten
+
+/-! ## the whole-file reader -/
+
+structure Opts where
+  hdr : Rd.ReadOpts
+  dat : Dt.DataOpts
+deriving DecidableEq, Repr
+
+/-- `define_line_splitter(provisional_delimiter)` (`finishRead` has rejected everything but the three names) -/
+def dlmOf : Option Str → Dt.Dlm
+  | none => .space
+  | some d => if d == "COMMA".toList then .comma else if d == "TAB".toList then .tab else .space
+
+/-- The steering values handed to the data reader. `nullOf` is the trusted numeric service for the ~Well NULL value
+(`num()` then `float()`: raw text ↦ canonical float text when it is a number). -/
+def dtSteer (nullOf : Option Str → Option Str) (s : Rd.Steer) : Dt.Steer :=
+  { wrapDeclared := s.wrap.isSome, wrapped := s.wrap.getD Dt.yesTxt, nullValue := nullOf s.null, delimiter := dlmOf s.dlm }
+
+/-- `len(self.curves)` when the data are read: the items stored under "Curves" -/
+def declaredCount (secs : List (Rd.RKey × Rd.SecVal)) : Nat :=
+  match secs.lookup Rd.kCurves with
+  | some (.items l) => l.length
+  | _ => 0
+
+/-- one data section: its window and what `readData` makes of it -/
+structure DataRead where
+  first : Nat
+  last : Nat
+  res : Except Dt.DErr (Dt.Engine × List (Dt.Slot × Dt.Column))
+deriving Repr
+
+structure FullRead where
+  sections : List (Rd.RKey × Rd.SecVal)
+  steer : Rd.Steer
+  data : List DataRead
+deriving Repr
+
+/-- `LASFile.read` on the lines of a file: the header-level reader, then `readData` on every data window it reports -/
+def readFull (o : Opts) (nullOf : Option Str → Option Str) (ft : Dt.FloatTable) (lines : Doc) : Except Rd.RErr FullRead :=
+  match Rd.readLines o.hdr lines with
+  | .error e => .error e
+  | .ok h =>
+    let st := dtSteer nullOf h.steer
+    let d := declaredCount h.sections
+    .ok ⟨h.sections, h.steer, h.data.map fun w => ⟨w.1, w.2.1, Dt.readData o.dat lines w.1 w.2.1 st d ft⟩⟩
+
+/-- the PARSED RESULT: header items of every section (and the ~Other text), and per data section the curves — neither the
+line numbers of the windows nor the engine that produced the curves belong to it -/
+structure Parsed where
+  sections : List (Rd.RKey × Rd.SecVal)
+  data : List (Except Dt.DErr (List (Dt.Slot × Dt.Column)))
+deriving Repr
+
+def FullRead.parsed (r : FullRead) : Parsed := ⟨r.sections, r.data.map fun x => x.res.map Prod.snd⟩
+
+def readModel (o : Opts) (nullOf : Option Str → Option Str) (ft : Dt.FloatTable) (lines : Doc) : Except Rd.RErr Parsed :=
+  (readFull o nullOf ft lines).map FullRead.parsed
+
+end Lasio.Tf
